@@ -36,8 +36,8 @@ ILL_CONDITIONED = {"kind": "ill-conditioned", "off": 1,
                    "locks": [0] * 10 + [1]}
 SPEC_ALL = 4          # idle blocks up to this size always go through the Lean `spec` op (brute force n!)
 PERM_MAX = 8          # up to this size the Lean permC of the idle block and of one minor is compared as well
-SPEC_CAP_QUICK = {5: 400, 6: 40, 7: 6, ("perm", 8): 40}
-SPEC_CAP_THOROUGH = {5: 6000, 6: 600, 7: 60, ("perm", 8): 400}
+SPEC_CAP_QUICK = {5: 300, 6: 25, 7: 3, ("perm", 7): 150, ("perm", 8): 12}
+SPEC_CAP_THOROUGH = {5: 6000, 6: 600, 7: 60, ("perm", 7): 5000, ("perm", 8): 400}
 STATS = {"max_abs_err_vs_spec": 0.0, "max_abs_err_vs_model": 0.0, "max_rescale_diff": 0.0}
 
 W_MATRIX1 = [
@@ -371,7 +371,11 @@ def predicate(code, case, res=None, want=None, full=True):
     if want is None:
         return fails           # not in the family (perm of the idle block is 0): no claim
     if kind == "mc":
-        return fails           # Monte-Carlo branch: outside exactness
+        # Monte-Carlo branch: outside exactness - but only blocks larger than 12 may go there
+        dims = res[3][1]
+        if any(d <= 12 for d in dims) or not dims:
+            return [("C02:monte-carlo-on-small-block", f"random_prob used for blocks of size {dims} (exact code path expected up to 12)")]
+        return fails
     if kind != "ok":
         return [("C02:exception-in-family", f"inf_retis raised {kind} on a reachable weight matrix")]
     if P.shape != (n, n):
@@ -450,8 +454,8 @@ def evaluate_family(ctx, code, cases, label):
             elif budget.get(sz, 0) > 0 and (k * 7919) % 5 == 0:
                 budget[sz] -= 1
                 spec_idx.append(k)
-            if SPEC_ALL < sz <= PERM_MAX and (sz <= 7 or budget.get(("perm", sz), 0) > 0):
-                if sz > 7:
+            if SPEC_ALL < sz <= PERM_MAX and (sz <= 6 or budget.get(("perm", sz), 0) > 0):
+                if sz > 6:
                     budget[("perm", sz)] -= 1
                 idle = [i for i in range(len(c["W"])) if not c["locks"][i]]
                 M = [[c["W"][i][j] for j in idle] for i in idle]
@@ -563,7 +567,7 @@ def gen_weighted(ctx, rng):
     for m in (9, 10):
         plan += [(m, "rowconst", 20 if q else 200), (m, "free", 4 if q else 40)]
     for m in (11, 12):
-        plan += [(m, "rowconst", 20 if q else 200), (m, "free", 2 if q else 12)]
+        plan += [(m, "rowconst", 20 if q else 200), (m, "free", 1 if q else 12)]
     for (m, mode, cnt) in plan:
         for it in range(cnt):
             off = 0 if rng.random() < 0.15 else 1
